@@ -35,6 +35,8 @@ class LoopSpec:
     def __init__(self, n):
         self.n = n
         self.invariants = []  # Clause
+        self.inv_except_break = []
+        self.ensures = []
         self.decreases = None
         self.attrs = []
 
@@ -57,6 +59,7 @@ class FnContract:
         self.external = False
         self.canary_exempt = None
         self.rewrites = []  # (rule, old, new, count, line)
+        self.proofs_after = []  # (method name, proof text): inserted after the statement calling .method(
         self.asserts = []  # (method name, Clause): proof assertion after the statement calling .method(
         self.loops = {}
         self.closures = {}
@@ -110,6 +113,9 @@ def _parse_simple(path, lines):
                 m = re.match(r"(\S+)\s+(.*)$", text.strip(), re.S)
                 cl = _clause("assert", m.group(2), fc.tags, ln)
                 fc.asserts.append((m.group(1), cl))
+            elif key == "proof_after":
+                m = re.match(r"(\S+)\s+(.*)$", text.strip(), re.S)
+                fc.proofs_after.append((m.group(1), m.group(2)))
             elif key == "rewrite":
                 m = re.match(r"(\S+)\s+(?:x(\d+)\s+)?`(.*?)`\s*=>\s*`(.*?)`\s*$", text.strip(), re.S)
                 if not m:
@@ -121,6 +127,10 @@ def _parse_simple(path, lines):
                     _, k2, t2, l2, _c = c
                     if k2 == "invariant":
                         lp.invariants.append(_clause("invariant", t2, fc.tags, l2))
+                    elif k2 == "invariant_except_break":
+                        lp.inv_except_break.append(_clause("invariant", t2, fc.tags, l2))
+                    elif k2 == "ensures":
+                        lp.ensures.append(_clause("invariant", t2, fc.tags, l2))
                     elif k2 == "decreases":
                         lp.decreases = t2.strip()
                     elif k2 == "attr":
@@ -175,7 +185,7 @@ def _parse_simple(path, lines):
             lastsub = None
             items.append(last)
         elif ind == 4 and last is not None and last[1] in ("loop", "closure") and \
-                re.match(r"(invariant|decreases|attr|ensures|requires)\b", body):
+                re.match(r"(invariant_except_break|invariant|decreases|attr|ensures|requires)\b", body):
             parts = body.split(None, 1)
             lastsub = [4, parts[0], parts[1] if len(parts) > 1 else "", ln, []]
             last[4].append(lastsub)
